@@ -12,6 +12,8 @@ TRUSTED_BASE = [
     'RunHandlers, handler.run, decorateHandlerPublisher, decorateHandlerSubscriber, addHandlerContext, handleMessage, publishProducedMessages) and router_context.go and tied to them by this check',
     'the subscriber environment is a scripted fan-out subscriber (every subscription of a topic on a subscriber object receives its own copy); middlewares and decorators are the harness\'s tagging wrappers '
     '(enter/exit marks, optional appended message; a publisher decorator calls its inner publisher even when that is a nil interface, as an embedding decorator does)',
+    'hook router.wiring.handler_removed (one added line after delete(r.handlers, name)) + hookrt park rule: used only to hold the teardown goroutine of a stopped handler while its name is re-added; '
+    'a rule that times out just means the window was not forced (counted in the evidence), never a verdict',
     'internal.StructName is exercised (Stringer and %T paths, empty names) but not modelled: type names enter the model as the strings the harness computed for its own collaborator types; '
     '"message.disabledPublisher" and "<nil>" are fixed constants of the model',
 ]
@@ -19,6 +21,11 @@ ASSUMPTIONS = [
     'a registration counts as "before the handler is started" when it completed before Run/RunHandlers was called; the handler goroutine copies r.middlewares asynchronously after RunHandlers returned '
     '(router.go l.456-458), so the harness lets every newly started handler process one message before it registers anything else; registrations racing with that copy are outside the statement '
     '(Router.AddMiddleware takes no lock at all)',
+    'RunHandlers walks r.handlers in Go map order; the model takes registration order. The only observable difference: WHICH waiting handler keeps the publisher decorators of an attempt that failed in a '
+    'subscriber-decorator constructor when several handlers wait; the generator lets subscriber-decorator constructors fail only while exactly one handler waits (publisher-decorator failures are unrestricted). '
+    'A failing constructor at the very first Run is not generated (Run cannot be retried: "router is already running")',
+    'as coded (stated by theorems, not repaired): r.middlewares entries are never removed, so a handler added again under the name of a stopped one inherits that name\'s handler-level middlewares '
+    '(C09_registrations_never_removed); a RunHandlers attempt that fails in a subscriber decorator leaves the publisher decorated, so after the retry the publisher decorators act twice (model field residue)',
     'per-copy independence: the copies of concurrently delivered messages are handled by independent handleMessage instances; the harness runs 1..4 deliveries x fan-out copies in flight behind a barrier and compares every per-copy trace',
 ]
 
@@ -39,7 +46,7 @@ def ev_term(e):
     if k == 'exit': return '(EExit %s)' % n(e[1])
     if k == 'fn': return '(EFn %s %s)' % (n(e[1]), ctx_term(e[2]))
     if k == 'pubdec': return '(EPubDec %s %s %s)' % (n(e[1]), n(e[2]), nl(e[3]))
-    if k == 'publish': return '(EPublish %s %s %s)' % (n(e[1] + 1), n(e[2]), C.coq_list(['(%s, %s)' % (n(o[0]), ctx_term(o[1])) for o in e[3]]))
+    if k == 'publish': return '(EPublish %s %s %s)' % (n(e[1] + 1), n(e[2]), C.coq_list(['(%s, %s, (%s, %s))' % (n(o[0]), ctx_term(o[1]), n(o[2]), C.coq_bool(o[3])) for o in e[3]]))
     if k == 'settle': return '(ESettle %s)' % C.coq_bool(e[1])
     return None
 
@@ -54,14 +61,15 @@ def op_term(p, o):
     app = lambda o: '(Some %s)' % n(100 + o['id']) if o.get('app') else 'None'
     if k == 'addmw': return '(OAddMw %s %s)' % (n(o['id']), app(o))
     if k == 'addhmw': return '(OAddHMw %s %s %s)' % (n(ids[o.get('name', '')]), n(o['id']), app(o))
-    if k == 'addpubdec': return '(OAddPubDec %s)' % n(o['id'])
-    if k == 'addsubdec': return '(OAddSubDec %s)' % n(o['id'])
+    if k == 'addpubdec': return '(OAddPubDec %s %d%%nat)' % (n(o['id']), o.get('fails', 0))
+    if k == 'addsubdec': return '(OAddSubDec %s %d%%nat)' % (n(o['id']), o.get('fails', 0))
+    if k == 'stop': return '(OStop %s)' % n(ids[o.get('name', '')])
     if k == 'start': return 'OStart'
     if k == 'deliver':
         d = o['d']
         outs = nl(d.get('outs') or [])
         out = ['(Ret %s)' % outs, '(Fail %s)' % outs, 'Panic'][d['outkind']]
-        return '(ODeliver (DL %s %s %s %s %s))' % (n(d['sub'] + 1), n(ids[d['topic']]), ctx_term(d.get('ctx') or [0] * 5), out, PB[d['pb']])
+        return '(ODeliver (DL %s %s %s (%s, %s) %s %s))' % (n(d['sub'] + 1), n(ids[d['topic']]), ctx_term(d.get('ctx') or [0] * 5), n(d.get('utag', 0)), C.coq_bool(d.get('ucancel', False)), out, PB[d['pb']])
     raise C.CheckError('unknown op ' + k)
 
 def case_term(p):
@@ -73,12 +81,13 @@ def describe(p, tab=None):
     ops = []
     for o in p['ops']:
         k = o['k']
-        if k == 'addhandler': ops.append(('AddHandler' if o['h']['pubkind'] != 1 else 'AddNoPublisherHandler') + ('(DUPLICATE NAME: panics)' if o.get('dup') else '') + ' ' + str(o['h']))
+        if k == 'addhandler': ops.append(('[in window] ' if o.get('win') else '') + ('AddHandler' if o['h']['pubkind'] != 1 else 'AddNoPublisherHandler') + ('(DUPLICATE NAME: panics)' if o.get('dup') else '') + ' ' + str(o['h']))
         elif k == 'deliver': ops.append('deliver %s' % {kk: v for kk, v in o['d'].items()} + (' [concurrent batch %d]' % o['grp'] if o.get('grp') else ''))
-        elif k == 'addhmw': ops.append('Handler(%r).AddMiddleware(mw%d%s)' % (o.get('name', ''), o['id'], ' appends msg %d' % (100 + o['id']) if o.get('app') else ''))
+        elif k == 'addhmw': ops.append(('[in window] ' if o.get('win') else '') + 'Handler(%r).AddMiddleware(mw%d%s)' % (o.get('name', ''), o['id'], ' appends msg %d' % (100 + o['id']) if o.get('app') else ''))
         elif k == 'addmw': ops.append('Router.AddMiddleware(mw%d%s)' % (o['id'], ' appends msg %d' % (100 + o['id']) if o.get('app') else ''))
-        elif k == 'start': ops.append('Run / RunHandlers')
-        else: ops.append('%s(%d)' % (k, o['id']))
+        elif k == 'start': ops.append('Run / RunHandlers' + (' (a decorator constructor fails: returns an error)' if o.get('fail') else ''))
+        elif k == 'stop': ops.append('Handler(%r).Stop()%s' % (o.get('name', ''), ' — the following [in window] ops run as soon as the name is free, before Stopped() closes' if o.get('early') else ', wait for Stopped()'))
+        else: ops.append('%s(%d)%s' % (k, o['id'], ' constructor fails %d time(s)' % o['fails'] if o.get('fails') else ''))
     return dict(kind=p['kind'], subscriber_types=p['subty'], publisher_types=p['pubty'], program=ops,
                 observed=[[dict(handler=c['owner'], trace=c['trace']) for c in ob] for ob in p['obs']], anomalies=p['anomaly'],
                 interned={v: k for k, v in p['nameids'].items()})
@@ -93,6 +102,14 @@ def stats(res, p):
     res.count('pub_decorators=%d' % min(5, sum(1 for o in p['ops'] if o['k'] == 'addpubdec')))
     res.count('sub_decorators=%d' % min(5, sum(1 for o in p['ops'] if o['k'] == 'addsubdec')))
     if any(o.get('dup') for o in p['ops']): res.count('duplicate_handler_name_attempts')
+    nstop = sum(1 for o in p['ops'] if o['k'] == 'stop')
+    if nstop: res.count('programs_with_Handler.Stop'); res.count('handler_stops', nstop)
+    if any(o.get('win') and o['k'] == 'addhandler' for o in p['ops']): res.count('names_re-added_inside_the_teardown_window(generated)')
+    if p.get('windows'): res.count('teardown_windows_really_forced(old goroutine parked at the hook)', p['windows'])
+    if any(o['k'] == 'stop' for o in p['ops']) and any(o['k'] == 'addhandler' and not o.get('dup') and o['h']['name'] in [x.get('name') for x in p['ops'] if x['k'] == 'stop'] for o in p['ops']): res.count('programs_re-adding_a_stopped_name')
+    nf = sum(1 for o in p['ops'] if o['k'] == 'start' and o.get('fail'))
+    if nf: res.count('programs_with_failing_decorator_constructors'); res.count('RunHandlers_calls_that_returned_an_error', nf)
+    if any(o.get('fails') and o['k'] == 'addsubdec' for o in p['ops']): res.count('programs_with_failing_SUBSCRIBER_decorator(publisher decorators stay applied)')
     keys = [(h['sub'], h['subtopic']) for h in hs]
     if len(set(keys)) < len(keys): res.count('programs_with_handlers_sharing_a_subscription_topic')
     pubs = [h['pub'] for h in hs if h['pubkind'] == 0]
@@ -108,6 +125,8 @@ def stats(res, p):
         res.count('copies_per_delivery=%d' % len(ob))
         res.count('outcome=%s' % ['ret', 'fail', 'panic'][d['outkind']])
         if d.get('chain'): res.count('deliveries_of_an_object_published_earlier(ctx keys present)')
+        if d.get('utag') or d.get('ucancel'): res.count('deliveries_whose_context_carries_user_value_or_cancellation')
+        if d['outkind'] == 0 and len(set(d.get('outs') or [])) > 1: res.count('deliveries_returning_>=2_messages_with_different_own_contexts')
         for c in ob:
             tr = c['trace']
             ne = sum(1 for e in tr if e[0] == 'enter')
@@ -123,9 +142,10 @@ def shape(p):
         if k == 'addhandler': s.append(('H', o['h']['name'], o['h']['sub'], o['h']['subtopic'], o['h']['pubkind'], o['h']['pub'], o['h']['pubtopic']))
         elif k == 'addmw': s.append('R' + ('+' if o.get('app') else ''))
         elif k == 'addhmw': s.append('M' + o.get('name', '') + ('+' if o.get('app') else ''))
-        elif k == 'addpubdec': s.append('P')
-        elif k == 'addsubdec': s.append('S')
-        elif k == 'start': s.append('!')
+        elif k == 'addpubdec': s.append('P%d' % o.get('fails', 0))
+        elif k == 'addsubdec': s.append('S%d' % o.get('fails', 0))
+        elif k == 'start': s.append('!x' if o.get('fail') else '!')
+        elif k == 'stop': s.append(('Z' if o.get('early') else 'z') + o.get('name', ''))
     return tuple(s)
 
 def run_harness(ctx, args, tag):
@@ -147,6 +167,8 @@ def evaluate(ctx, res, progs, vio_name, tag, sig_prefix, what):
         ndel = sum(1 for o in p['ops'] if o['k'] == 'deliver')
         seen_names = set(); dupbad = None
         for o in p['ops']:
+            if o['k'] == 'stop':
+                seen_names.discard(o.get('name', ''))
             if o['k'] == 'addhandler':
                 if bool(o.get('dup')) != (o['h']['name'] in seen_names):
                     dupbad = o['h']['name']
